@@ -93,6 +93,14 @@ def mismatch(lean, py, path=''):
                 if m:
                     return m
             return None
+        if name == 'tuple':
+            if not isinstance(py, tuple) or len(py) != len(v):
+                return f'{path}: Lean tuple of {len(v)}, library {type(py).__name__}'
+            for i in range(len(v)):
+                m = mismatch(v[str(i)], py[i], f'{path}({i})')
+                if m:
+                    return m
+            return None
         if name == 'dict':
             if not isinstance(py, dict) or [str(k) for k in py] != list(v):
                 return f'{path}: Lean dict keys {list(v)[:6]}, library {list(py)[:6] if isinstance(py, dict) else type(py).__name__}'
